@@ -42,6 +42,35 @@ def valid_size(d):
     return hi - lo + 1
 
 
+def valid_range(d):
+    lo, hi = INT_TYPES[d["ty"]]
+    for r in d["val"]:
+        if r["k"] == "greater":
+            lo = max(lo, r["b"] + 1)
+        elif r["k"] == "greater_or_equal":
+            lo = max(lo, r["b"])
+        elif r["k"] == "less":
+            hi = min(hi, r["b"] - 1)
+        elif r["k"] == "less_or_equal":
+            hi = min(hi, r["b"])
+    return lo, hi
+
+
+def hit_inputs(d):
+    """byte strings that must make the generator produce chosen valid values of a range too wide to enumerate:
+    int_in_range reads ceil(bits(hi - lo) / 8) bytes big-endian and adds them (mod hi - lo + 1) to lo."""
+    lo, hi = valid_range(d)
+    tlo, thi = INT_TYPES[d["ty"]]
+    width = ((thi - tlo).bit_length() + 7) // 8
+    delta = hi - lo
+    n = min(width, (delta.bit_length() + 7) // 8)
+    targets = {lo, hi, lo + 1, hi - 1, (lo + hi) // 2, lo + 2 ** 16 + 3, lo + 2 ** 32 + 5, lo + 2 ** 64 + 7, hi - 2 ** 32 - 5, lo + 255, lo + 256}
+    out = []
+    for v in sorted(t for t in targets if lo <= t <= hi):
+        out.append({"bytes": list((v - lo).to_bytes(n, "big")), "t": VL.enc_value(d, v)})
+    return out
+
+
 def instantiate(rows, rng, lifts):
     decls = []
     for i, obj in enumerate(rows):
@@ -97,6 +126,8 @@ def check_C14():
 
     def rows_of(d):
         out = [{"d": d["id"], "ep": "arb", "ins": byte_inputs(rng, 40 if q else 400)}]
+        if not d["san"] and d["vmode"] != "custom" and valid_size(d) > 65536:
+            out.append({"d": d["id"], "ep": "arb_hit", "ins": hit_inputs(d)})
         if valid_size(d) <= 65536 and valid_size(d) >= 1:
             out.append({"d": d["id"], "ep": "arb_cover", "ins": [None]})
         return out
